@@ -33,3 +33,4 @@ def rules(ctx):
     S.restore_commit_rules(ctx)
     S.flush_take_rules(ctx)
     S.oldest_search_rules(ctx)
+    S.snapshot_atomic_rules(ctx)
